@@ -74,11 +74,11 @@ let parse_ingress (s : string) : ingress =
 
 let parse_cfg (toks : string list) : acfg =
   match toks with
-  | [key; ings; cid; iss; acrdef; acrsup; locdef; locsup; scope; resource; par; secret; isssup; strict] ->
+  | [key; ings; cid; iss; acrdef; acrsup; locdef; locsup; scope; resource; par; secret; isssup; strict; seg] ->
     mk_acfg (n_of_int (int_of_string key)) (List.map parse_ingress (split_on ';' ings)) (bytes_of_hex cid) (bytes_of_hex iss)
       (bytes_of_hex acrdef) (List.map bytes_of_hex (split_on ',' acrsup)) (bytes_of_hex locdef)
       (List.map bytes_of_hex (split_on ',' locsup)) (bytes_of_hex scope) (bytes_of_hex resource)
-      (par = "1") (secret = "1") (isssup = "1") (strict = "1")
+      (par = "1") (secret = "1") (isssup = "1") (strict = "1") (seg = "1")
   | _ -> failwith "acfg"
 
 let parse_cookie (s : string) : cterm =
